@@ -36,7 +36,9 @@ ASSUMPTIONS = [
     "steps rejected by schema validation (SchemaValidationError / ExtensionError / SDLError) produce no schema; their side effects on the heap are still compared; any other exception, a plain SchemaError included, is a failure of the derivation",
     "about half of the object types of a source get their resolvers through the schema's registries; 12% of the sources hold one or two type objects that are instances of an application-defined subclass of ObjectType / InterfaceType / InputObjectType",
     "default values are opaque to the heap model (`dflt` = repr of the coerced value): the steps sent to the model add no input field WITH a default and remove no enum value / input field a default mentions through an extension, so `ArgKept.dflt` (the default is kept) is what the code does; defaults that must CHANGE (an extension adding a defaulted input field, T15) or that mention removed members (T13, T14) are checked by the direct oracle only (`default_cases`, `directive_cases`)",
-    "the ORDER of the `types` / `directives` dicts is compared with the model (corr:registry-order) for clone / transform / in-place / replace results without an extension in their ancestry; the order `extend_schema` gives its result is not modelled (the heap comparison itself is order-insensitive)",
+    "the ORDER of the `types` / `directives` dicts is compared with the model (corr:registry-order) for every clone / transform / in-place / replace / extend result, extension results and their descendants included (extendOrder: the depth-first registration order of Schema.__init__ over the rebuilt types; the heap comparison itself is order-insensitive)",
+    "about half of the extension documents that define an object type let it implement an interface of the schema (with the interface's fields): decided by a fixed function of the step number and the schema, without drawing from the generator's rng; `extend type X implements I` on an EXISTING type is not generated (not modelled)",
+    "named probes run after everything that draws from ctx.rng and draw nothing themselves: python names through camel-case, input fields of a clone, in-place visitor on an earlier result while a sibling clone / a clone of it / an extension of it exist",
     "resolver identity is by function object (every resolver of the harness is a distinct function with a stable id); the registry model compares these ids",
 ]
 TRUSTED = [
@@ -53,6 +55,14 @@ CFG_KEYS = ["keepAllTypes", "deepClone", "accumulateBusted", "cloneSchemaDres",
             "extObjDres", "extFieldSub", "extFieldPy", "extIfaceRtype", "extUnionDesc", "extUnionRtype",
             "extArgPy", "extInputPy", "extKeepAll", "extSchemaDres", "extInputFieldExtended", "cloneRegsDeep",
             "cloneRegsFiltered", "cloneRegsByValue", "extKeepRegs", "extLeafCopied"]
+
+
+def _accumulates(replace_src):
+    assigns = re.findall(r"^[ \t]*busted_cache[ \t]*(\|=|=)[ \t]*(.*)$", replace_src, re.M)
+    later = [(op, rhs.strip()) for op, rhs in assigns if not (op == "=" and rhs.strip() == "False")]
+    if not later:
+        return False
+    return all(op == "|=" or re.match(r"(busted_cache\s+or\b|True\b)", rhs) for op, rhs in later)
 
 
 def read_cfg():
@@ -77,7 +87,9 @@ def read_cfg():
     cfg = {
         "keepAllTypes": bool(re.search(r"types\.setdefault\(|types=list\(self\.types", clone_src)),
         "deepClone": "_clone_type(t)" in clone_src and "_clone_field" in src,
-        "accumulateBusted": bool(re.search(r"busted_cache\s*=\s*busted_cache\s+or|busted_cache\s*\|=|if new_type != original_type:\s*\n\s*busted_cache = True", replace_src)),
+        # EVERY assignment to the flag (types loop and directives loop) must accumulate: `busted_cache = busted_cache or …`,
+        # `busted_cache |= …`, or a guarded `busted_cache = True`; one overwriting assignment is the legacy variant (T3)
+        "accumulateBusted": _accumulates(replace_src),
         "cloneSchemaDres": "cloned.default_resolver" in clone_src,
     }
     # how clone() copies the resolver registries:
@@ -328,6 +340,23 @@ def gen_ext(rng, schema, n, force_wrapdir=False):
             {"name": u + "z_val", "ty": ty("Int"), "args": []},
             {"name": "z_ref", "ty": ty(rng.choice(out_pool + [zed])), "args": [{"name": u + "z_arg", "ty": ty("Int")}] if rng.random() < 0.5 else []}]})
         out_pool = out_pool + [zed]
+        # `type Zed implements I { …I's fields… }`: an object type DEFINED by the document that declares an interface of the
+        # source (the heap model carries them: Ext.newIfaces / setNewIfaces). Decided WITHOUT drawing from `rng` (the stream
+        # of every later choice stays what it was): a fixed function of the step number and the schema's interfaces.
+        ifs = sorted(names["interface"])
+        if ifs and (n * 7 + len(ifs) + len(names["object"])) % 2 == 0:
+            iname = ifs[(n + len(names["object"])) % len(ifs)]
+            iface = schema.types[iname]
+            mine = {f["name"] for f in ext["new_types"][-1]["fields"]}
+            from py_gql.schema import NonNullType
+            # (the extension format carries no default values: an argument that is REQUIRED once its default is gone would make
+            #  the new type's field unusable by the coverage query — such interfaces are not implemented)
+            plain = all(not isinstance(a.type, NonNullType) for f in iface.fields for a in f.arguments)
+            if plain and not (mine & {f.name for f in iface.fields}):
+                ext["new_types"][-1]["fields"] += [
+                    {"name": f.name, "ty": _ty_json(f.type), "args": [{"name": a.name, "ty": _ty_json(a.type)} for a in f.arguments]}
+                    for f in iface.fields]
+                ext["new_types"][-1]["implements"] = [iname]
     wrap_targets = []
     if names["object"] and rng.random() < 0.6:
         o = pick(names["object"])
@@ -340,6 +369,9 @@ def gen_ext(rng, schema, n, force_wrapdir=False):
         for o in names["object"]:
             if any(x.name == i for x in schema.types[o].interfaces):
                 ext["fields"].setdefault(o, []).append(copy.deepcopy(f))
+        for t in ext["new_types"]:
+            if i in t.get("implements", []):
+                t["fields"].append(copy.deepcopy(f))
     if names["union"] and zed and rng.random() < 0.5:
         ext["members"][pick(names["union"])] = [zed]
     if names["enum"] and rng.random() < 0.4:
@@ -363,6 +395,15 @@ def gen_ext(rng, schema, n, force_wrapdir=False):
 WRAPDIR = "c14wrap"
 
 
+def _ty_json(t):
+    from py_gql.schema import ListType, NonNullType
+    if isinstance(t, ListType):
+        return {"k": "list", "t": _ty_json(t.type)}
+    if isinstance(t, NonNullType):
+        return {"k": "nonNull", "t": _ty_json(t.type)}
+    return {"k": "named", "n": t.name}
+
+
 def ty_sdl(t):
     return t["n"] if t["k"] == "named" else ("[%s]" % ty_sdl(t["t"]) if t["k"] == "list" else ty_sdl(t["t"]) + "!")
 
@@ -378,7 +419,8 @@ def ext_sdl(ext, schema):
                                                if f.get("args") else "", ty_sdl(f["ty"]),
                                                " @" + WRAPDIR if (owner, f["name"]) in targets else "") for f in fs) + " }"
     for t in ext["new_types"]:
-        parts.append("type %s %s" % (t["name"], fields(t["fields"])))
+        parts.append("type %s%s %s" % (t["name"], (" implements " + " & ".join(t["implements"])) if t.get("implements") else "",
+                                       fields(t["fields"])))
     for n, fs in ext["fields"].items():
         kw = "interface" if isinstance(schema.types[n], InterfaceType) else "type"
         parts.append("extend %s %s %s" % (kw, n, fields(fs, n)))
@@ -1297,6 +1339,8 @@ def one_sequence(ctx, seed_note, size, n_steps, steps=None, build_seed=None):
             if e.get("wrapdir") is not None:
                 ctx.stat("extend:schema_directives:%d-new-fields-carry-it:%d-source-fields-carry-it:%s" % (
                     len(e["wrapdir"]["targets"]), min(len(step.get("already_wrapped", [])), 3), status.split(":")[0]))
+            if any(t.get("implements") for t in e["new_types"]):
+                ctx.stat("extend:new-type-implements-an-interface:%s" % status.split(":")[0])
             if any(t["name"].startswith("_") for t in e["new_types"]):
                 ctx.stat("extend:new-names-with-a-leading-underscore:%s" % status.split(":")[0])
         found = []
@@ -1496,7 +1540,7 @@ def to_model_request(base_world, steps, cfg):
     msteps = []
     for s in steps:
         m = {"op": "transform" if s["op"] == "inplace" else s["op"], "src": s["src"], "rejected": not s["status"] == "ok"}
-        if s["op"] in ("transform", "inplace"):
+        if s["op"] in ("transform", "inplace", "inplace_on"):
             vs = []
             for v in s["visitors"]:
                 v2 = {k: v[k] for k in v if k not in ("wrap_ids",)}
@@ -1565,6 +1609,150 @@ def pyname_probes(ctx, want=2):
     return out
 
 
+# --- named probe: the input fields of a clone are its own (deterministic: consumes no ctx.rng; seeded C14-11) -------------
+NESTED_INPUT_PROBE_STEPS = [
+    {"op": "clone", "src": 0},
+    {"op": "transform", "src": 0, "visitors": [{"k": "camel"}]},
+    {"op": "inplace", "src": 1, "visitors": [{"k": "camel"}]},        # in place on the clone: the source must not see it
+    {"op": "transform", "src": 0, "visitors": []},
+]
+NESTED_INPUT_PROBE_SEEDS = [(2, k) for k in range(1, 40)] + [(3, k) for k in range(1, 60)]
+
+
+def _nested_input_precondition(seed, size):
+    """The source has an input object with a field whose (unwrapped) type is a non-specified type (enum, custom scalar,
+    another input object): healing a clone re-points exactly these references."""
+    import random
+    from py_gql.schema import InputObjectType, SPECIFIED_SCALAR_TYPES, unwrap_type
+    _, _, source = W.build_source(random.Random(seed), size, W.Funcs())
+    user = [t for n, t in source.types.items() if not n.startswith("__")]
+    return any(unwrap_type(f.type) not in SPECIFIED_SCALAR_TYPES for t in user if isinstance(t, InputObjectType) for f in t.fields) \
+        and any(isinstance(unwrap_type(f.type), InputObjectType) for t in user if isinstance(t, InputObjectType) for f in t.fields)
+
+
+def nested_input_probes(ctx, want=2):
+    out = []
+    for size, seed in NESTED_INPUT_PROBE_SEEDS:
+        try:
+            ok = _nested_input_precondition(seed, size)
+        except Exception:  # noqa
+            ok = False
+        if ok:
+            out.append((size, copy.deepcopy(NESTED_INPUT_PROBE_STEPS), seed, "input-fields-of-a-clone"))
+            if len(out) == want:
+                break
+    ctx.stat("probe:input-fields-of-a-clone:sources=%d" % len(out))
+    if len(out) < want:
+        ctx.notes.append("probe input-fields-of-a-clone: only %d of %d sources satisfy the precondition" % (len(out), want))
+    return out
+
+
+# --- named probe: IN-PLACE visitor on an EARLIER result while later schemas exist (deterministic: consumes no ctx.rng) -----------
+# Props/C14_inplace.lean (`history_inplace_closed_framed`): the step writes objects of the result it works on only; the source,
+# a sibling clone, a clone OF that result and an extension OF that result — all created before the step — stay as they are.
+LATE_INPLACE_SEEDS = [(2, 4), (2, 6), (3, 2), (3, 5)]
+
+
+def _late_inplace_visitors(r1, which):
+    from py_gql.schema import EnumType, InputObjectType, InterfaceType, ObjectType
+    if which == "camel":
+        return [{"k": "camel", "table": camel_table(r1)}]
+    roots = {t.name for t in (r1.query_type, r1.mutation_type, r1.subscription_type) if t is not None}
+    user = [n for n, t in r1.types.items() if not n.startswith("__") and n not in roots
+            and isinstance(t, (ObjectType, InterfaceType, EnumType, InputObjectType))]
+    comp = [t for n, t in r1.types.items() if not n.startswith("__") and isinstance(t, (ObjectType, InterfaceType)) and len(t.fields) > 1]
+    return [{"k": "visibility", "types": sorted(user)[:1], "dirs": [],
+             "fields": [[comp[0].name, comp[0].fields[-1].name]] if comp else [], "inputs": []}]
+
+
+def late_inplace_cases(ctx, cfg, only=None, fail=None):
+    """[(model request, canonical world of the live objects, record, closedness verdicts)] + direct oracle."""
+    fail = fail or ctx.fail
+    import random
+    from py_gql.exc import ExtensionError, SchemaError, SDLError
+    from py_gql.schema.transforms import transform_schema
+    from py_gql.sdl import extend_schema
+    out = []
+    for size, seed in ([only[:2]] if only else LATE_INPLACE_SEEDS[:ctx.n(2, 4)]):
+        for which in ((only[2],) if only else ("camel", "visibility")):
+            if not only and ctx.time_left() < 4:
+                ctx.notes.append("probe inplace-on-earlier-result skipped (time)")
+                return out
+            funcs = W.Funcs()
+            record = {"seed": seed, "size": size, "probe": "inplace-on-earlier-result", "which": which, "steps": []}
+            try:
+                desc, sdl, source = W.build_source(random.Random(seed), size, funcs)
+                dumper = W.Dumper()
+                base_world = W.canon(dumper.dump([source]))
+                W.use_schema(source)
+                v1 = {"k": "camel", "table": camel_table(source)}
+                r1 = transform_schema(source, make_visitor(v1, funcs))
+                r2 = source.clone()
+                r3 = transform_schema(r1)
+                ext = {"new_types": [{"name": "C14Late", "fields": [{"name": "z", "ty": {"k": "named", "n": "Int"}, "args": []}]}],
+                       "fields": {}, "input_fields": {}, "members": {}, "values": {}, "new_dirs": []}
+                r4 = extend_schema(r1, ext_sdl(ext, r1))
+                steps = [{"op": "transform", "src": 0, "visitors": [v1], "status": "ok"},
+                         {"op": "clone", "src": 0, "status": "ok"},
+                         {"op": "transform", "src": 1, "visitors": [], "status": "ok"},
+                         {"op": "extend", "src": 1, "ext": ext, "status": "ok"}]
+                schemas = [source, r1, r2, r3, r4]
+                for x in schemas:
+                    W.use_schema(x)
+                before = {k: dumper.dump([schemas[k]]) for k in (0, 2, 3, 4)}
+                vs = _late_inplace_visitors(r1, which)
+                cur = r1
+                for v in vs:
+                    cur = make_visitor(v, funcs).on_schema(cur)
+                if cur is not r1:
+                    fail("step-raises:inplace-on-earlier-result:NotInPlace", "on_schema returned another schema object", record)
+                    continue
+                steps.append({"op": "inplace_on", "src": 1, "visitors": vs, "status": "ok"})
+            except (SchemaError, SDLError, ExtensionError) as e:
+                ctx.notes.append("probe inplace-on-earlier-result: %s: %s" % (type(e).__name__, e))
+                continue
+            except Exception as e:  # noqa
+                fail("step-raises:inplace-on-earlier-result:%s" % type(e).__name__,
+                         "clone / transform / extend / in-place visitor on an earlier result raised %r" % e, record)
+                continue
+            record["steps"] = steps
+            ctx.count()
+            ctx.nontrivial(("late-inplace", seed, size, which))
+            ctx.stat("probe:inplace-on-earlier-result:%s" % which)
+            names = {0: "source", 2: "sibling-clone", 3: "clone-of-it", 4: "extension-of-it"}
+            for k in (0, 2, 3, 4):
+                after = dumper.dump([schemas[k]])
+                if after != before[k]:
+                    d = W.first_diff(before[k], after)
+                    m = re.search(r"\.objs\.(\d+)\.(\w+)", d or "")
+                    kind = "object-graph"
+                    if m:
+                        o = before[k]["objs"].get(int(m.group(1)), {})
+                        kind = "%s.%s" % (o.get("o", "?"), m.group(2))
+                    fail("frame:%s-modified:inplace-on-earlier-result:%s" % ("source" if k == 0 else "other-schema", kind),
+                             "an in-place %s visitor on a result changed the object graph of the %s (created before the step): %s"
+                             % (which, names[k], d), record)
+            for k, x in enumerate(schemas):
+                bad = [b for b in W.closed_violations(x) if not b.startswith("implementations")]
+                if bad:
+                    fail("closed:inplace-on-earlier-result:%s" % (names.get(k, "the-result-worked-on")),
+                             "after an in-place %s visitor on an earlier result a reference is not the registered object: %s" % (which, bad[0]),
+                             record)
+            if cfg is not None and ctx.model_ok:
+                raw = dumper.dump(schemas)
+                impl = W.canon(raw)
+                pyc = [not [b for b in W.closed_violations(x) if not b.startswith("implementations")] for x in schemas]
+                req = to_model_request(base_world, steps, cfg)
+                order0 = [[n for n, _ in raw["schemas"][0]["types"]], [n for n, _ in raw["schemas"][0]["dirs"]]]
+                sch0 = dict(req["schema"])
+                for wk, k in (("types", 0), ("dirs", 1)):
+                    pos = {n: j for j, n in enumerate(order0[k])}
+                    sch0[wk] = sorted(sch0[wk], key=lambda e: pos.get(e[0], len(pos)))
+                req["schema"] = sch0
+                out.append((req, impl, record, pyc))
+    return out
+
+
 def run(ctx):
     try:
         cfg = read_cfg()
@@ -1578,7 +1766,7 @@ def run(ctx):
     budget_each = 0.8
     batch = []
     seen_sigs = set()
-    probes = pyname_probes(ctx)
+    probes = [p + ("pyname-through-camel-case",) for p in pyname_probes(ctx)] + nested_input_probes(ctx)
     # the probes run AFTER the random sequences: `ctx.later` draws from ctx.rng once its reservoir is full, so anything
     # inserted before them would shift every later random choice (and with it the classes other detections rely on)
     stopped = False
@@ -1589,14 +1777,14 @@ def run(ctx):
             stopped = True
             continue
         if i < 0 and ctx.time_left() < 5:
-            ctx.notes.append("probe pyname-through-camel-case skipped (time)")
+            ctx.notes.append("named probe skipped (time)")
             continue
         try:
             if i < 0:
-                size, psteps, pseed = probes[i + len(probes)]
+                size, psteps, pseed, pname = probes[i + len(probes)]
                 record, failures, schemas, dumper, msteps, base_world = one_sequence(
-                    ctx, "probe:pyname", size, len(psteps), steps=psteps, build_seed=pseed)
-                record["probe"] = "pyname-through-camel-case"
+                    ctx, "probe:" + pname, size, len(psteps), steps=psteps, build_seed=pseed)
+                record["probe"] = pname
             else:
                 size = ctx.rng.choice([1, 2, 2, 3, 4])
                 n_steps = ctx.rng.randint(2, 6)
@@ -1668,8 +1856,8 @@ def run(ctx):
                 for which, k in (("types", 0), ("dirs", 1)):
                     m_names = [n for n, _ in mo[which]]
                     if tainted[i]:
-                        ctx.stat("order:%s:%s:not-modelled(extension)" % (which, opn))
-                        continue
+                        # `extendOrder` (HeapExt.lean): the depth-first registration order of Schema.__init__ over the rebuilt types
+                        ctx.stat("order:%s:%s:extension-in-ancestry:%s" % (which, opn, "same" if m_names == io[k] else "DIFFERS"))
                     ctx.stat("order:%s:%s:%s" % (which, opn, "same" if m_names == io[k] else "DIFFERS"))
                     if m_names != io[k]:
                         ctx.fail("corr:registry-order:%s:%s" % (which, opn),
@@ -1680,6 +1868,25 @@ def run(ctx):
                 ctx.fail("corr:closed-verdict", "closedness verdict of the model (closedB) differs from the identity check on the live objects",
                          {"record": record, "model": ans.get("closed"), "impl": pyc}, kind="correspondence")
     ctx.extra["sequences"] = len(batch)
+    # --- named probe inplace-on-earlier-result (after everything that draws from ctx.rng)
+    late = late_inplace_cases(ctx, cfg)
+    if late:
+        answers = ctx.driver.ask([b[0] for b in late])
+        for (req, impl, record, pyc), ans in zip(late, answers):
+            ctx.count()
+            if "error" in ans:
+                ctx.fail("corr:model-error:%s" % ans["error"], "model could not run the sequence", {"record": record, "answer": ans},
+                         kind="correspondence")
+                continue
+            model = W.canon({"objs": ans["objs"], "schemas": ans["schemas"]})
+            if model != impl:
+                ctx.fail("corr:heap-differs:inplace-on-earlier-result:%s" % record["which"],
+                         "object graph of model and implementation differ (impl vs model): %s" % W.first_diff(impl, model),
+                         {"record": record}, kind="correspondence")
+            if ans.get("closed") != pyc:
+                ctx.fail("corr:closed-verdict", "closedness verdict of the model (closedB) differs from the identity check on the live objects",
+                         {"record": record, "model": ans.get("closed"), "impl": pyc}, kind="correspondence")
+    ctx.extra["late_inplace_cases"] = len(late)
     # --- correspondence of the resolver REGISTRIES (source.clone() + registrations on the clone) with Registry.lean
     reg_cases = ctx._c14_reg_cases
     if reg_cases and ctx.model_ok:
@@ -1738,6 +1945,13 @@ def replay(ctx, data):
         inp = inp["record"]
     if "seed" not in inp:
         return True
+    if inp.get("probe") == "inplace-on-earlier-result":
+        found = []
+        late_inplace_cases(ctx, None, only=(inp["size"], inp["seed"], inp["which"]),
+                           fail=lambda sig, what, detail=None, kind="property": found.append((sig, what)))
+        for sig, what in found:
+            print("  ", sig, "--", what)
+        return not found
     steps = copy.deepcopy(inp["steps"])
     for s in steps:
         for k in ("status", "failed", "raised"):
